@@ -2309,7 +2309,9 @@ class Problem(object, metaclass=ProblemMetaclass):
         resolver = self.model._resolver
 
         if inputs:
-            for abs_name in inputs:
+            # a Case can be keyed on promoted names (it is when it holds discrete variables), so ask it
+            # for the absolute names
+            for abs_name in (inputs if case_is_dict else list(inputs.absolute_names())):
                 if set_later(abs_name):
                     continue
 
@@ -2329,28 +2331,45 @@ class Problem(object, metaclass=ProblemMetaclass):
                                   "in the case is not found in the model.")
 
         if outputs:
-            for name in outputs:
+            if case_is_dict:
+                recorded = [(name, None, outputs[name]['val']) for name in outputs]
+            else:
+                # (name the case uses, absolute name, value).  The name is a promoted name in the scope
+                # of the system that recorded the case; for an automatically created source it is the
+                # promoted name of its inputs.
+                abs2prom = case._abs2prom['output']
+                recorded = [(abs2prom.get(abs_name, abs_name), abs_name, outputs[abs_name])
+                            for abs_name in outputs.absolute_names()]
+
+            for name, abs_name, val in recorded:
                 if set_later(name):
                     continue
 
-                if resolver.is_prom(name):
-                    if case_is_dict:
-                        val = outputs[name]['val']
-                    else:
-                        val = outputs[name]
-
-                    for abs_name in resolver.absnames(name):
-                        if set_later(abs_name):
-                            continue
-
-                        if model.comm.size > 1 and resolver.flags(abs_name) & DISTRIBUTED:
-                            sizes = model._var_sizes['output'][:, abs2idx[abs_name]]
-                            model.set_val(abs_name, scatter_dist_to_local(val, model.comm, sizes))
-                        else:
-                            model.set_val(abs_name, val)
+                if abs_name is not None and not abs_name.startswith('_auto_ivc.') and \
+                        resolver.is_abs(abs_name, 'output'):
+                    # the very same variable exists in this model (whatever its promoted name
+                    # means at this level)
+                    abs_names = (abs_name,)
+                elif resolver.is_prom(name, 'output'):
+                    # same promoted name in a model with a different hierarchy
+                    abs_names = resolver.absnames(name, 'output')
+                elif resolver.is_prom(name, 'input'):
+                    # the recorded value is that of the inputs' source, in the source's units and shape
+                    abs_names = (resolver.source(name, 'input'),)
                 else:
                     issue_warning(f"{model.msginfo}: Output variable, '{name}', recorded "
                                   "in the case is not found in the model.")
+                    continue
+
+                for abs_out in abs_names:
+                    if set_later(abs_out):
+                        continue
+
+                    if model.comm.size > 1 and resolver.flags(abs_out) & DISTRIBUTED:
+                        sizes = model._var_sizes['output'][:, abs2idx[abs_out]]
+                        model.set_val(abs_out, scatter_dist_to_local(val, model.comm, sizes))
+                    else:
+                        model.set_val(abs_out, val)
 
         # call the overridden load_case method on applicable subsystems (in top-down order)
         for sys_name in sorted(system_overrides.keys()):
